@@ -80,6 +80,16 @@ def rangeInDomain : Option Sim.DateR → Bool
   | none => true
   | some r => dateInDomain r.start && dateInDomain r.stop
 
+/-- the float64 sum of the four weighted components, before the cut -/
+def weightedSumF (ind par spo chi wI wP wS wC : Dbl) : Dbl :=
+  add (add (add (mul ind wI) (mul par wP)) (mul spo wS)) (mul chi wC)
+
+/-- `SurroundingSimilarity.WeightedSimilarity` on the float64 values (since the repair: the sum, cut
+    at one) -/
+def weightedF (ind par spo chi wI wP wS wC : Dbl) : Dbl :=
+  if lt one (weightedSumF ind par spo chi wI wP wS wC) then one
+  else weightedSumF ind par spo chi wI wP wS wC
+
 /-- `DateNodes.Minimum()` with the float64 comparison `date.StartDate().Years() < min.StartDate().Years()`
     (the exact model has to set ties such as `Dec 1880` / `16 Dec 1880` aside; the last bit decides
     here as it does in Go) -/
